@@ -58,3 +58,8 @@ check("C08",
       "Exploration: per generated response model, the well-formed frame (decoded content compared with the model), every truncation point, field-map-directed mutations (lengths/counts/flags/type ids/nesting/custom type strings/header/compression sizes) and random bodies are run through the driver's whole response decoding pipeline under every negotiated-feature/compression combination; oracles: no panic, no abort, no stack overflow, bounded time and bounded allocation relative to input size.",
       "Trusted: vkit::wire::response encoder, lz4_flex/snap (to produce compressed bodies), counting global allocator, child-process isolation. Bounds: 16 MiB + 512 x input bytes, 1 GiB single request, 2 s + 1 ms/byte, 6 s watchdog (hangs re-measured 3 times). Rows materialised up to 100000 per frame.",
       "DESIGN.md 2/C08")
+check("C09",
+      "property-based testing: generated request models serialized by the driver and read back by an independent request parser (differential); exhaustive QUERY/EXECUTE option subsets",
+      "Exploration: every generated request (all kinds, option subsets, value lists, batch shapes, ids/keys at the 16-bit boundary, compression, tracing, stream ids) is serialized with SerializedRequest::make and parsed by the reference parser: version, flags, stream, opcode, length == body size with no trailing bytes, every body field in spec order; compressed bodies inflate to the uncompressed serialization; inputs the protocol cannot carry must produce an error and no frame.",
+      "Trusted: vkit::wire::request parser, lz4_flex/snap. Statements >= 2 GiB not generated. The session-level half (statement/profile settings reach the wire) is the mock-cluster sub-check (when present in evidence sub_checks).",
+      "DESIGN.md 2/C09")
